@@ -1,5 +1,6 @@
 import NessaiVerif.Model.Quadrature
 import NessaiVerif.Proofs.Quadrature
+import NessaiVerif.Proofs.InformationReal
 import Mathlib.Analysis.SpecialFunctions.Log.Basic
 /-
 C02 — evidence and posterior weights equal the documented nested-sampling quadrature.
@@ -427,5 +428,116 @@ example (L₁ L₂ t₁ t₂ : K) :
   · simp [evidence, closedL, closedX, vols, volsFrom, cumprodFrom, trap, avgs, diffs, dot]
     ring
   · simp [weights_eq, vols, volsFrom, cumprodFrom, diffs]
+
+/-! ## The information `H` and the reported uncertainty `sqrt(H / nlive)`
+
+`Model/Information.lean` is the recursion of `_NSIntegralState.increment` for `info`, with the logarithm as a
+parameter `lg`.  Pos = every likelihood positive (finite log-likelihood), every shrinkage in (0,1). -/
+section information
+open NessaiVerif.Info
+
+/-- **Closed form of the code's information recursion**, for every logarithm function `lg`, every ordered
+field and every number of increments ≥ 1: one value is appended per increment except the first
+(`oldZ = -inf`), the accumulated `Z` is the rectangle sum, and the last value is
+`(Z₁ lg Z₁ + Σ_{i≥2} W_i lg L_i) / Z - lg Z`. -/
+theorem info_closed_form [LinearOrder K] [IsStrictOrderedRing K] (lg : K → K) (p : K × K)
+    (rest : List (K × K)) (h : Pos (p :: rest)) :
+    let s := (ISt.init : ISt K).run lg (p :: rest)
+    s.last = closedForm lg (p :: rest) ∧ s.info.length = 1 + rest.length ∧
+      s.Z = sumL (terms 1 (p :: rest)) := by
+  obtain ⟨L, t⟩ := p
+  have hp := h.head
+  simp only at hp
+  have h1t : 0 < 1 - t := by linarith [hp.2.2]
+  have hZ1 : (0 : K) < 0 + 1 * L * (1 - t) := by
+    have : (0 : K) < 1 * L * (1 - t) := mul_pos (mul_pos one_pos hp.1) h1t
+    linarith
+  simp only [ISt.run, first_step]
+  have r := run_from lg (⟨0 + 1 * L * (1 - t), 1 * t, [0]⟩ : ISt K)
+    ((0 + 1 * L * (1 - t)) * lg (0 + 1 * L * (1 - t))) hZ1 (mul_pos one_pos hp.2.1)
+    (by simp only [ISt.last, List.getLastD_cons, List.getLastD_nil]
+        rw [mul_div_cancel_left₀ _ (ne_of_gt hZ1)]; exact (sub_self _).symm) rest h.tail
+  simp only at r
+  refine ⟨?_, ?_, ?_⟩
+  · rw [r.1]; simp only [closedForm, zero_add]
+  · rw [r.2.2]; simp
+  · rw [r.2.1]; simp only [terms, sumL, zero_add]
+
+example := info_closed_form (K := ℚ) (fun x => x) (1, 1 / 2) [(2, 1 / 2)] (by
+  intro p hp; simp at hp; rcases hp with rfl | rfl <;> norm_num)
+
+/-- the model run on two increments (at `lg = id`, exact rationals): `info = [0, 1/4]`, `Z = 1` -/
+example : ((ISt.init : ISt ℚ).run (fun x => x) [(1, 1 / 2), (2, 1 / 2)]).info = [0, 1 / 4] := by
+  norm_num [ISt.run, ISt.step, ISt.init]
+
+/-- **The code's information vs the textbook information** `H = Σ (W_i/Z) lg L_i - lg Z` (for every `lg`):
+they differ by the first dead point's term, `(W₁ / Z) (lg W₁ - lg L₁)`. -/
+theorem info_vs_textbook (lg : K → K) (L t : K) (rest : List (K × K)) :
+    closedForm lg ((L, t) :: rest) =
+      textbook lg ((L, t) :: rest) +
+        (1 * L * (1 - t)) * (lg (1 * L * (1 - t)) - lg L) / sumL (terms 1 ((L, t) :: rest)) := by
+  simp only [closedForm, textbook, terms, sumL, weightedLogs]
+  ring
+
+/-- …over ℝ with the real logarithm the difference is `p₁ · log(1 - t₁)`, `p₁ = W₁ / Z` the posterior weight
+of the first dead point: a NEGATIVE correction (the recursion starts from `info = 0` after the first point
+instead of from `-log(1 - t₁)`). -/
+theorem info_vs_textbook_real (L t : ℝ) (rest : List (ℝ × ℝ)) (hL : 0 < L) (ht : t < 1) :
+    closedForm Real.log ((L, t) :: rest) =
+      textbook Real.log ((L, t) :: rest) +
+        (L * (1 - t)) / sumL (terms 1 ((L, t) :: rest)) * Real.log (1 - t) := by
+  rw [info_vs_textbook]
+  have h1t : (0 : ℝ) < 1 - t := by linarith
+  rw [one_mul, Real.log_mul (ne_of_gt hL) (ne_of_gt h1t)]
+  ring
+
+example := info_vs_textbook_real 1 (1 / 2) [(1, 1 / 2)] one_pos (by norm_num)
+
+/-- **The textbook information is non-negative** (Gibbs' inequality; ℝ, real logarithm, any run of ≥ 1
+increments with positive likelihoods and shrinkages in (0,1)): `H ≥ -log(1 - X_N) ≥ 0`, where
+`Σ π_i = 1 - X_N` is the prior mass already integrated.  With it `sqrt(H / nlive)` is a real number. -/
+theorem textbook_info_nonneg (steps : List (ℝ × ℝ)) (h : Pos steps) (hne : steps ≠ []) (nlive : Nat) :
+    0 ≤ textbook Real.log steps ∧ errSq (textbook Real.log steps) nlive ≠ none := by
+  have := textbook_ge steps h hne
+  have h0 : 0 ≤ textbook Real.log steps := by linarith [this.1, this.2]
+  refine ⟨h0, ?_⟩
+  simp [errSq, not_lt.mpr h0]
+
+example := textbook_info_nonneg [(1, 1 / 2), (1, 1 / 2)]
+  (by intro p hp; simp at hp; rcases hp with rfl | rfl <;> norm_num) (by simp) 10
+
+/-- **…but the code's value can be negative, and then the reported uncertainty is NaN** (known finding,
+reproduced on the real `_NSIntegralState` by the harness): two dead points of equal likelihood with shrinkage
+1/2 give `info = (2/3) log(1/2) - log(3/4) < 0`.  More generally a (nearly) flat likelihood drives the textbook
+`H` to 0 while the correction `p₁ log(1 - t₁)` stays. -/
+theorem code_info_can_be_negative :
+    closedForm Real.log [((1 : ℝ), 1 / 2), (1, 1 / 2)] < 0 ∧
+      errSq (closedForm Real.log [((1 : ℝ), 1 / 2), (1, 1 / 2)]) 10 = none := by
+  have key : closedForm Real.log [((1 : ℝ), 1 / 2), (1, 1 / 2)] < 0 := by
+    have h1 : Real.log ((1 / 2 : ℝ) ^ 2) < Real.log ((3 / 4 : ℝ) ^ 3) :=
+      Real.log_lt_log (by norm_num) (by norm_num)
+    rw [Real.log_pow, Real.log_pow] at h1
+    have e : closedForm Real.log [((1 : ℝ), 1 / 2), (1, 1 / 2)]
+        = (2 / 3) * Real.log (1 / 2) - Real.log (3 / 4) := by
+      simp only [closedForm, terms, sumL, weightedLogs]
+      norm_num
+      ring
+    rw [e]
+    push_cast at h1
+    linarith
+  exact ⟨key, by unfold errSq; rw [if_pos key]⟩
+
+/-- the information state and the quadrature state of `Model/Quadrature.lean` accumulate the same evidence
+when fed the same `increment` calls (the two models describe one object) -/
+theorem info_state_Z_eq_quadrature_Z [DecidableEq K] (lg : K → K) (shrink : Nat → K) (n : Nat)
+    (calls : List (K × Option Nat)) :
+    ((ISt.init : ISt K).run lg (calls.map fun c => (c.1, shrink (c.2.getD n)))).Z =
+      ((St.init n).incrMany shrink calls).Z := by
+  rw [(run_Z lg _ _).1, (quad_Z shrink _ _).1]
+  rfl
+
+example := info_state_Z_eq_quadrature_Z (K := ℚ) (fun x => x) tOfN 2 [(1, none), (2, some 1)]
+
+end information
 
 end NessaiVerif.C02
